@@ -147,13 +147,15 @@ def candidates(prog):
         yield "drop-extra", f
 
 
-def reduce(prog, fails, budget=60):
+def reduce(prog, fails, budget=60, kinds=None):
     cur = copy.deepcopy(prog)
     evals = 0
     progress = True
     while progress and evals < budget:
         progress = False
         for kind, f in list(candidates(cur)):
+            if kinds is not None and kind not in kinds:
+                continue
             if evals >= budget:
                 break
             cand = copy.deepcopy(cur)
